@@ -158,6 +158,25 @@ pub fn run(run: &mut Run) -> PResult {
             }
             items.push((sh, v));
         }
+        // the public product-search helper, called with keys related to the next hand's prime product
+        // (the product plus high bits, neighbours, truncations), immediately before ranking that hand
+        {
+            let mut cnt = 0u64;
+            for (w, v) in items.iter().step_by(2) {
+                let prod: u64 = w.iter().map(|c| (c & 0x3F) as u64).product();
+                for k in [prod, prod + 1, prod.wrapping_sub(1), prod | (1 << 32), prod | (1 << 40), prod + (1 << 48), prod + (3 << 48), prod | (1 << 63), prod << 16, prod & 0xFFFF, !prod] {
+                    cnt += 1;
+                    let _ = guard(|| Five::find_in_products(k as usize));
+                    let got = guard(|| Five::from(*w).hand_rank_value());
+                    if got != Ok(*v) {
+                        run.generator("product-search helper with a related key, then the ranking", "exhaustive over classes x related keys (histories across functions)", None, cnt, cnt, "");
+                        let seq = vec![hand_json(w)];
+                        return run.violation("C01.after_helper", &format!("find_in_products({}) ; {}", k, card::render_hand(w)), json!({"key": k, "size": 5, "sequence": seq}), &format!("after Five::find_in_products({}): Five::hand_rank_value on [{}] returned {:?}, the strength ordinal is {}", k, card::render_hand(w), got, v));
+                    }
+                }
+            }
+            run.generator("product-search helper with a related key, then the ranking", "exhaustive over classes x related keys (histories across functions)", Some(cnt), cnt, cnt, "keys: the hand's prime product, +-1, with bits 32/40/48/49/63 added, shifted, truncated, complemented");
+        }
         let n = items.len() as u64;
         // one thread over the plain representatives (every pair really back to back), then all
         // threads over the doubled set
@@ -357,7 +376,7 @@ fn pair_check(c1: &[u8; 5], c2: &[u8; 5], p1: usize, p2: usize, perms: &[[u8; 5]
 }
 
 pub fn check_case(clause: &str, case: &Value) -> Result<(), String> {
-    if clause.ends_with(".after_disturbance") {
+    if clause.ends_with(".after_disturbance") || clause.ends_with(".concurrent") || clause.ends_with(".concurrent_cold_start") {
         return replay_after_disturbance(case, check_case);
     }
     let t = poker::tables();
@@ -389,6 +408,11 @@ pub fn check_case(clause: &str, case: &Value) -> Result<(), String> {
                 return Err(format!("value {} is produced by {} hands, poker class has {}", v, n, want));
             }
             Ok(())
+        }
+        "C01.after_helper" => {
+            let k = case["key"].as_u64().ok_or("key")?;
+            let _ = guard(|| Five::find_in_products(k as usize));
+            super::multi::check_sequence_case(case, super::multi::Mode::Value)
         }
         "C01.sequence" => super::multi::check_sequence_case(case, super::multi::Mode::Value),
         "C01.compare" => {
